@@ -12,6 +12,9 @@ func init() {
 		Run: func(c *Ctx) {
 			c.guard("pilemerge", func() { rulePileMerge(c, "pilemerge"); c.floor("pilemerge", 5) })
 			c.guard("pileadd", func() { rulePileAdd(c, "pileadd"); c.floor("pileadd", 4) })
+			c.guard("pileimages", func() { rulePileImages(c, "pileimages"); c.floor("pileimages", 2) })
+			c.guard("overlapclosed", func() { ruleOverlapClosed(c, "overlapclosed"); c.floor("overlapclosed", 1) })
+			c.guard("intervalcoherent", func() { ruleIntervalCoherent(c, "intervalcoherent", "align/pals"); c.floor("intervalcoherent", 3) })
 		},
 	})
 	register(&propDef{
@@ -25,6 +28,8 @@ func init() {
 			c.guard("bijection", func() { ruleBijection(c, "bijection"); c.floor("bijection", 2) })
 			c.guard("casefold", func() { ruleCaseFold(c, "casefold"); c.floor("casefold", 2) })
 			c.guard("compmethod", func() { ruleCompMethod(c, "compmethod"); c.floor("compmethod", 1) })
+			c.guard("asciicheck", func() { ruleASCIICheck(c, "asciicheck"); c.floor("asciicheck", 2) })
+			c.guard("norunes", func() { ruleNoRunes(c, "norunes"); c.floor("norunes", 8) })
 			c.guard("indexinit", func() { ruleIndexInit(c, "indexinit"); c.floor("indexinit", 1) })
 		},
 	})
@@ -42,6 +47,8 @@ func init() {
 			})
 			c.guard("convformula", func() { ruleConvFormula(c, "convformula"); c.floor("convformula", 2) })
 			c.guard("scalepath", func() { ruleScalePath(c, "scalepath"); c.floor("scalepath", 4) })
+			c.guard("clampfirst", func() { ruleClampFirst(c, "clampfirst"); c.floor("clampfirst", 1) })
+			c.guard("decodeswitch", func() { ruleDecodeSwitch(c, "decodeswitch"); c.floor("decodeswitch", 2) })
 			c.guard("tables/quality", func() { ruleQuality(c) })
 		},
 	})
@@ -60,6 +67,8 @@ func init() {
 				c.floor("recovercover", 2)
 			})
 			c.guard("arrayrange", func() { ruleArrayRange(c, "arrayrange", "alphabet"); c.floor("arrayrange", 4) })
+			c.guard("eofspin", func() { ruleEOFSpin(c, "eofspin", "io/seqio/fasta", "io/seqio/fastq"); c.floor("eofspin", 2) })
+			c.guard("byteidx", func() { ruleByteIdx(c, "byteidx", "io/featio/bed", "io/featio/gff", "io/seqio/fasta", "io/seqio/fastq"); c.floor("byteidx", 4) })
 			c.guard("lineio/eofhang", func() {
 				ruleEOFPaths(c, "lineio/eofhang", "", "io/featio/bed", "io/featio/gff")
 				c.floor("lineio/eofhang", 3)
@@ -110,6 +119,8 @@ func init() {
 			c.guard("directsink", func() { ruleDirectSink(c, "directsink", seqs...); c.floor("directsink", 2) })
 			c.guard("prefixstrip", func() { rulePrefixStrip(c, "prefixstrip", seqs...); c.floor("prefixstrip", 2) })
 			c.guard("bareplus", func() { ruleBarePlus(c, "bareplus"); c.floor("bareplus", 2) })
+			c.guard("overflowwidth", func() { ruleOverflowWidth(c, "overflowwidth"); c.floor("overflowwidth", 1) })
+			c.guard("linelimit", func() { ruleLineLimit(c, "linelimit", seqs...) })
 			c.guard("fresh/clonedeep", func() {
 				ruleCloneDeep(c, "fresh/clonedeep", "seq/linear", "(*Seq).Clone")
 				ruleCloneDeep(c, "fresh/clonedeep", "seq/linear", "(*QSeq).Clone")
@@ -133,7 +144,9 @@ func init() {
 			c.guard("zerocolour", func() { ruleZeroColour(c, "zerocolour"); c.floor("zerocolour", 1) })
 			c.guard("splitsep", func() { ruleSplitSep(c, "splitsep"); c.floor("splitsep", 6) })
 			c.guard("spancheck", func() { ruleSpanCheck(c, "spancheck") })
+			c.guard("attrsplit", func() { ruleAttrSplit(c, "attrsplit"); c.floor("attrsplit", 1) })
 			c.guard("linelimit", func() { ruleLineLimit(c, "linelimit", "io/featio/bed", "io/featio/gff") })
+			c.guard("intervalcoherent", func() { ruleIntervalCoherent(c, "intervalcoherent", "io/featio/bed", "io/featio/gff"); c.floor("intervalcoherent", 9) })
 			c.guard("bytecount", func() { ruleByteCount(c, "bytecount", "io/featio/bed", "io/featio/gff"); c.floor("bytecount", 28) })
 		},
 	})
@@ -160,6 +173,15 @@ func init() {
 				c.floor("qtravel", 4)
 			})
 			c.guard("mirror", func() { ruleMirrorTerms(c, "mirror", "(*Multi).RevComp", "(*Multi).Reverse"); c.floor("mirror", 2) })
+			c.guard("getterpure", func() { ruleGetterPure(c, "getterpure"); c.floor("getterpure", 10) })
+			c.guard("rangeself", func() {
+				ruleRangeSelf(c, "rangeself", [][2]string{{"seq/alignment", "(*Seq).RevComp"}, {"seq/alignment", "(*Seq).Reverse"}, {"seq/alignment", "(*QSeq).RevComp"}, {"seq/alignment", "(*QSeq).Reverse"}})
+				c.floor("rangeself", 4)
+			})
+			c.guard("intervalcoherent", func() {
+				ruleIntervalCoherent(c, "intervalcoherent", "seq/linear", "seq/alignment", "seq/multi")
+				c.floor("intervalcoherent", 4)
+			})
 			c.guard("strandneg", func() {
 				ruleStrandNeg(c, "strandneg", [][2]string{{"seq/linear", "(*Seq).RevComp"}, {"seq/linear", "(*QSeq).RevComp"}, {"seq/alignment", "(*Seq).RevComp"}, {"seq/alignment", "(*QSeq).RevComp"}, {"seq/alignment", "Row.RevComp"}, {"seq/alignment", "QRow.RevComp"}})
 				c.floor("strandneg", 6)
@@ -185,6 +207,7 @@ func init() {
 			c.guard("parallelidx", func() { ruleParallelIdx(c, "parallelidx"); c.floor("parallelidx", 1) })
 			c.guard("trimwindow", func() { ruleTrimWindow(c, "trimwindow"); c.floor("trimwindow", 2) })
 			c.guard("nonneglen", func() { ruleNonNegLen(c, "nonneglen", "Truncate", "Stitch", "Compose"); c.floor("nonneglen", 8) })
+			c.guard("intervalcoherent", func() { ruleIntervalCoherent(c, "intervalcoherent", "seq/linear", "seq/alignment", "seq/multi"); c.floor("intervalcoherent", 6) })
 			c.guard("mustpass", func() { ruleScratchReverse(c, "mustpass"); c.floor("mustpass", 1) })
 			c.guard("qtravel", func() {
 				ruleQTravel(c, "qtravel", [][2]string{{"seq/linear", "(*QSeq).RevComp"}, {"seq/linear", "(*QSeq).Reverse"}, {"seq/alignment", "(*QSeq).RevComp"}, {"seq/alignment", "(*QSeq).Reverse"}})
@@ -214,7 +237,13 @@ func init() {
 				c.floor("stalebuf", 2)
 			})
 			c.guard("flagcases", func() { ruleFlagCases(c, "flagcases"); c.floor("flagcases", 1) })
+			c.guard("foldinit", func() {
+				ruleFoldInit(c, "foldinit", [][2]string{{"seq/multi", "(*Multi).Start"}, {"seq/multi", "(*Multi).End"}})
+				c.floor("foldinit", 2)
+			})
+			c.guard("nilfunc", func() { ruleNilFunc(c, "nilfunc"); c.floor("nilfunc", 1) })
 			c.guard("reflectnew", func() { ruleReflectNew(c, "reflectnew", "seq/multi", "seq/alignment", "seq/linear", "seq/sequtils") })
+			c.guard("intervalcoherent", func() { ruleIntervalCoherent(c, "intervalcoherent", "seq/linear", "seq/alignment", "seq/multi"); c.floor("intervalcoherent", 6) })
 			c.guard("fillwatermark", func() {
 				ruleFillWatermark(c, "fillwatermark", [][2]string{{"alphabet", "Letter.Repeat"}, {"alphabet", "QLetter.Repeat"}})
 				c.floor("fillwatermark", 2)
@@ -288,6 +317,10 @@ func init() {
 				c.floor("emitnotscore", 12)
 				c.floor("tablezero", 12)
 			})
+			c.guard("fillwatermark", func() {
+				ruleFillWatermark(c, "fillwatermark", [][2]string{{"alphabet", "Letter.Repeat"}, {"alphabet", "QLetter.Repeat"}})
+				c.floor("fillwatermark", 2)
+			})
 		},
 	})
 	register(&propDef{
@@ -309,6 +342,7 @@ func init() {
 			c.guard("bordercover", func() { ruleBorderCover(c, "bordercover", fnsOf(), borderRow, borderCol); c.floor("bordercover", 14) })
 			c.guard("tablezero", func() { ruleTableZero(c, "tablezero", fnsOf()); c.floor("tablezero", 12) })
 			c.guard("argmaxlayer", func() { ruleArgmaxLayer(c, "argmaxlayer", fnsOf()); c.floor("argmaxlayer", 2) })
+			c.guard("delegatefamily", func() { ruleDelegateFamily(c, "delegatefamily", aligners) })
 		},
 	})
 	register(&propDef{
@@ -335,6 +369,8 @@ func init() {
 			c.guard("windowpos", func() { ruleWindowPos(c, "windowpos"); c.floor("windowpos", 1) })
 			c.guard("noexpose", func() { ruleNoExpose(c, "noexpose"); c.floor("noexpose", 1) })
 			c.guard("preloadbound", func() { rulePreloadBound(c, "preloadbound"); c.floor("preloadbound", 1) })
+			c.guard("casefold", func() { ruleCaseFold(c, "casefold"); c.floor("casefold", 2) })
+			c.guard("indexinit", func() { ruleIndexInit(c, "indexinit"); c.floor("indexinit", 1) })
 		},
 	})
 	register(&propDef{
@@ -347,6 +383,8 @@ func init() {
 			c.guard("pooldrain", func() { rulePoolDrain(c, "pooldrain"); c.floor("pooldrain", 1) })
 			c.guard("poolnil", func() { rulePoolNil(c, "poolnil"); c.floor("poolnil", 2) })
 			c.guard("poolmove", func() { rulePoolMove(c, "poolmove"); c.floor("poolmove", 3) })
+			c.guard("removeowner", func() { ruleRemoveOwner(c, "removeowner"); c.floor("removeowner", 4) })
+			c.guard("cycleowner", func() { ruleCycleOwner(c, "cycleowner"); c.floor("cycleowner", 1) })
 			c.guard("errslot", func() { ruleErrSlot(c, "errslot"); c.floor("errslot/sticky", 3); c.floor("errslot/propagate", 6+2) })
 			// whether a cycle is in-memory or spilled must not be decided from state the
 			// background writers are still producing: Finalise joins before reading it
@@ -363,6 +401,8 @@ func init() {
 			c.guard("lockset", func() { ruleMorassLockset(c, "lockset"); c.floor("lockset", 4) })
 			c.guard("errslot", func() { ruleErrSlot(c, "errslot"); c.floor("errslot/sticky", 3) })
 			c.guard("poolreturn", func() { rulePoolReturn(c, "poolreturn"); c.floor("poolreturn", 1) })
+			c.guard("cycleowner", func() { ruleCycleOwner(c, "cycleowner"); c.floor("cycleowner", 1) })
+			c.guard("reset", func() { ruleReset(c, "reset"); c.floor("reset", 6) })
 			c.guard("pooldrain", func() { rulePoolDrain(c, "pooldrain"); c.floor("pooldrain", 1) })
 		},
 	})
@@ -376,6 +416,8 @@ func init() {
 			c.guard("residue", func() { ruleResidue(c, "residue"); c.floor("residue", 5) })
 			c.guard("filepairing", func() { ruleTempFilePairing(c, "filepairing"); c.floor("filepairing", 1) })
 			c.guard("runretire", func() { ruleRunRetire(c, "runretire"); c.floor("runretire", 1) })
+			c.guard("reset", func() { ruleReset(c, "reset"); c.floor("reset", 6) })
+			c.guard("removeowner", func() { ruleRemoveOwner(c, "removeowner"); c.floor("removeowner", 4) })
 			c.guard("gojoin", func() { ruleMorassJoin(c, "gojoin"); c.floor("gojoin", 1) })
 		},
 	})
@@ -396,6 +438,8 @@ func init() {
 			})
 			c.guard("closerspawn", func() { ruleCloserSpawn(c, "closerspawn"); c.floor("closerspawn", 1) })
 			c.guard("addbeforego", func() { ruleAddBeforeGo(c, "addbeforego"); c.floor("addbeforego", 1) })
+			c.guard("tokencap", func() { ruleTokenCap(c, "tokencap"); c.floor("tokencap", 1) })
+			c.guard("operationrecover", func() { ruleOperationRecover(c, "operationrecover"); c.floor("operationrecover", 1) })
 		},
 	})
 	register(&propDef{
@@ -415,7 +459,10 @@ func init() {
 			})
 			c.guard("exonoverlap", func() { ruleExonOverlap(c, "exonoverlap"); c.floor("exonoverlap", 1) })
 			c.guard("zerostart", func() { ruleZeroStart(c, "zerostart"); c.floor("zerostart", 1) })
+			c.guard("intronperpair", func() { ruleIntronPerPair(c, "intronperpair"); c.floor("intronperpair", 1) })
+			c.guard("locpairwise", func() { ruleLocPairwise(c, "locpairwise"); c.floor("locpairwise", 1) })
 			c.guard("querypure", func() { ruleQueryPure(c, "querypure"); c.floor("querypure", 6) })
+			c.guard("intervalcoherent", func() { ruleIntervalCoherent(c, "intervalcoherent", "feat/gene"); c.floor("intervalcoherent", 6) })
 			c.guard("commitlast", func() {
 				ruleCommitLast(c, "commitlast", "feat/gene", "(*NonCodingTranscript).SetExons")
 				ruleCommitLast(c, "commitlast", "feat/gene", "(*CodingTranscript).SetExons")
@@ -439,6 +486,7 @@ func init() {
 			c.guard("kmerdist", func() { ruleKmerDist(c, "kmerdist"); c.floor("kmerdist", 1) })
 			c.guard("flushrange", func() { ruleFlushRange(c, "flushrange"); c.floor("flushrange", 2) })
 			c.guard("tubecap", func() { ruleTubeCap(c, "tubecap"); c.floor("tubecap", 1) })
+			c.guard("ringindex", func() { ruleRingIndex(c, "ringindex"); c.floor("ringindex", 3) })
 			c.guard("runstate", func() { ruleRunState(c, "runstate"); c.floor("runstate", 1) })
 		},
 	})
@@ -452,6 +500,8 @@ func init() {
 			c.guard("dupclass", func() { ruleDupClass(c, "dupclass"); c.floor("dupclass", 4) })
 			c.guard("ownedfilter", func() { ruleOwnedFilter(c, "ownedfilter"); c.floor("ownedfilter", 2) })
 			c.guard("selfguard", func() { ruleSelfGuard(c, "selfguard"); c.floor("selfguard", 1) })
+			c.guard("intersectminmax", func() { ruleIntersectMinMax(c, "intersectminmax"); c.floor("intersectminmax", 2) })
+			c.guard("stalecount", func() { ruleStaleCount(c, "stalecount"); c.floor("stalecount", 1) })
 			c.guard("paramwire", func() { ruleParamWire(c, "paramwire"); c.floor("paramwire", 6) })
 			c.guard("runstate", func() { ruleRunState(c, "runstate"); c.floor("runstate", 1) })
 		},
